@@ -297,6 +297,48 @@ def translate_unordered(repo):
     return sorted(set(res))
 
 
+def translate_checker_raises(repo, unordered):
+    """exception classes that can leave AASDataChecker.check_object_store on two readable stores:
+       NotImplementedError - if some method refuses unordered lists (translate_unordered);
+       AttributeError      - if `.__name__` is taken of a parameter / getattr() value that is not guarded by an enclosing
+                             `if ... <that expression> is not None ...` (a value attribute may be None)."""
+    path = os.path.join(repo, "sdk", "basyx", "aas", "examples", "data", "_helper.py")
+    tree = ast.parse(open(path).read())
+    res = ["ENotImplemented"] if unordered else []
+    for cls in tree.body:
+        if not (isinstance(cls, ast.ClassDef) and cls.name in ("AASDataChecker", "DataChecker")):
+            continue
+        for fn in cls.body:
+            if not isinstance(fn, ast.FunctionDef):
+                continue
+            parents = {}
+            for n in ast.walk(fn):
+                for c in ast.iter_child_nodes(n):
+                    parents[c] = n
+            class_params = {a.arg for a in fn.args.args if a.annotation is not None
+                            and ast.unparse(a.annotation).startswith("Type")}
+            for n in ast.walk(fn):
+                if not (isinstance(n, ast.Attribute) and n.attr == "__name__"):
+                    continue
+                e = n.value
+                if isinstance(e, ast.Attribute) and e.attr == "__class__":
+                    continue                                   # the class of an object is never None
+                if isinstance(e, ast.Name) and e.id in class_params:
+                    continue                                   # a parameter annotated Type[...]
+                if not (isinstance(e, ast.Name) or (isinstance(e, ast.Call) and ast.unparse(e.func) == "getattr")):
+                    raise TranslationError(f"{cls.name}.{fn.name}: __name__ of an unrecognised expression {ast.unparse(e)}")
+                want = ast.unparse(e) + " is not None"
+                guarded, cur = False, n
+                while cur in parents:
+                    par = parents[cur]
+                    if isinstance(par, ast.If) and cur in par.body and want in ast.unparse(par.test):
+                        guarded = True
+                    cur = par
+                if not guarded and "EAttribute" not in res:
+                    res.append("EAttribute")
+    return res
+
+
 def eq_attributes(repo, cname):
     """attributes compared by <cname>.__eq__ in model/base.py: a conjunction of self.a == other.a"""
     tree = ast.parse(open(os.path.join(repo, "sdk", "basyx", "aas", "model", "base.py")).read())
@@ -334,7 +376,7 @@ def class_table(annotated):
     return rows
 
 
-def render(functions, methods, table, unordered):
+def render(functions, methods, table, unordered, checker_raises):
     L = ["(* GENERATED by tools/py2coq/compliance.py from the compliance tool and _helper.py - do not edit *)",
          "From Coq Require Import List String.", "From Basyx Require Import model.Compliance.",
          "Import ListNotations.", "Open Scope string_scope.", ""]
@@ -358,6 +400,9 @@ def render(functions, methods, table, unordered):
     L.append("(* checker methods raising NotImplementedError when either list has order_relevant = False *)")
     L.append("Definition unordered_raises : list string := [" + "; ".join(coq_str(m) for m in unordered) + "].")
     L.append("")
+    L.append("(* what check_object_store can raise on two readable stores *)")
+    L.append("Definition checker_raises : list exc := [" + "; ".join(checker_raises) + "].")
+    L.append("")
     L.append("Definition class_table : list (string * string * list string) := [")
     L.append(";\n".join(f"  ({coq_str(c)}, {coq_str(m)}, [" + "; ".join(coq_str(a) for a in at) + "])" for c, m, at in table))
     L.append("].")
@@ -370,9 +415,11 @@ def regenerate(repo=None):
     methods, annotated = translate_checker(repo)
     table = class_table(annotated)
     unordered = translate_unordered(repo)
-    text = render(functions, methods, table, unordered)
+    checker_raises = translate_checker_raises(repo, unordered)
+    text = render(functions, methods, table, unordered, checker_raises)
     common.write_if_changed(os.path.join(common.GEN, "Gen_Compliance.v"), text)
-    return {"functions": functions, "methods": methods, "table": table, "unordered": unordered}
+    return {"functions": functions, "methods": methods, "table": table, "unordered": unordered,
+            "checker_raises": checker_raises}
 
 
 if __name__ == "__main__":
